@@ -59,7 +59,7 @@ def run(chk):
         "underlying writer = recording http.ResponseWriter+Flusher that can accept fewer bytes than offered or fail",
         "ops: SetStatus(<=0, 100, 201, 404, 500), Write(0/1/3 bytes; full, short, error), Flush, http.Error",
     ]
-    full = ["S0", "Sneg", "S100", "S201", "S404", "W0", "W1", "W3", "Wshort", "Werr", "F", "E404"]
+    full = ["S0", "Sneg", "S100", "S200", "S201", "S404", "W0", "W1", "W3", "Wshort", "Werr", "F", "E404"]
     instance(chk, "wide", 3, full)
     instance(chk, "deep", 5 if thorough else 4, ["Sneg", "S201", "S404", "W0", "W1", "Wshort", "F", "E404"] if thorough
              else ["S0", "S201", "S404", "W1", "Werr", "F", "E404"])
